@@ -57,6 +57,7 @@ FIXED = [
     ("C08", "d334c39", "`@dump(1;)@dump(2)` panicked (index out of range [54] with length 54): the token-name table had no entry for DUMP and an empty one for EACH"),
     ("C09", "d334c39", "parser panic through token.String(DUMP) on the render path of the string API"),
     ("C13", "8e11d82", "reported path of a failing page changed after a string evaluation"),
+    ("C17", "d3e3b1f", "`a@dump(nope)b` rendered successfully with the error object (message and, for files, the path) inside the page: evalDumpStmt never tested the argument with isError"),
 ]
 
 def main():
